@@ -100,11 +100,17 @@ def _run(P, tier, seed, rnd, work, notes, t0):
     extra = P.extra(tier, seed, work, notes) if hasattr(P, "extra") else {"failures": [], "coverage": {}}
 
     disagreements = []
+    model_unavailable = []
     if runners_ok and P.NEEDS_MODEL:
         for i, (a, b) in enumerate(zip(impl, model)):
+            if b is not None and b.startswith("MODELCRASH"):
+                model_unavailable.append(i)      # the extracted model ran out of time or stack on this case: the case is not compared (infrastructure, counted)
+                continue
             ca, cb = P.canon(cases[i], a), (P.canon_model(cases[i], b) if hasattr(P, "canon_model") else P.canon(cases[i], b))
             if ca != cb and ca != "SKIP":
                 disagreements.append(i)
+        if len(model_unavailable) > max(3, len(cases) // 200):
+            raise Infra("the model runner failed on %d of %d cases" % (len(model_unavailable), len(cases)))
     elif P.NEEDS_MODEL:
         broken.append("model runner unavailable: " + runner_err[-200:])
 
@@ -184,7 +190,8 @@ def _run(P, tier, seed, rnd, work, notes, t0):
         "theorems": {t: assum.get(t, {"status": "not built"}) for t in P.THEOREMS},
         "evaluations": len(cases), "distinct_nontrivial": nontriv,
         "rule": P.RULE, "samples": samples,
-        "traces_validated_against_impl": (len(cases) - len(disagreements)) if (runners_ok and P.NEEDS_MODEL) else 0,
+        "traces_validated_against_impl": (len(cases) - len(disagreements) - len(model_unavailable)) if (runners_ok and P.NEEDS_MODEL) else 0,
+        "model_unavailable_cases": len(model_unavailable),
         "disagreements_checked": len(disagreements), "programs": len(cases),
         "outcome_distribution": dict(kinds), "corpus_cases": len(corpus),
         "generated_tables": {t: r["sha"] for t, r in tables.items()},
